@@ -8,6 +8,7 @@
 #include "kvs.h"
 #include "manager_thread.h"
 #include "storage.h"
+#include "verif_hooks.h"
 
 namespace yakushima {
 
@@ -25,14 +26,18 @@ namespace yakushima {
      */
     thread_info_table::init();
     epoch_manager::invoke_epoch_thread();
+    YK_THREAD(YK_T_SPAWNED, YK_R_EPOCH);
     epoch_manager::invoke_gc_thread();
+    YK_THREAD(YK_T_SPAWNED, YK_R_GC);
 }
 
 [[maybe_unused]] static void fin() {
     destroy();
     epoch_manager::set_epoch_thread_end();
     epoch_manager::set_gc_thread_end();
+    YK_THREAD(YK_T_JOIN, YK_R_EPOCH);
     epoch_manager::join_epoch_thread();
+    YK_THREAD(YK_T_JOIN, YK_R_GC);
     epoch_manager::join_gc_thread();
     thread_info_table::fin();
 }
